@@ -819,6 +819,7 @@ NameList componentNames(const ModelPtr &model);
 NameList unitsNamesUsed(const ComponentPtr &component);
 EquivalenceMap rebaseEquivalenceMap(const EquivalenceMap &map, const IndexStack &originStack, const IndexStack &destinationStack);
 std::vector<UnitsPtr> unitsUsed(const ModelPtr &model, const ComponentConstPtr &component);
+std::vector<UnitsPtr> referencedUnits(const ModelPtr &model, const UnitsPtr &units);
 ComponentNameMap createComponentNamesMap(const ComponentPtr &component);
 
 /**
